@@ -133,6 +133,35 @@ def ext_parse(s):
     return refs
 
 
+def corr_conditions(t, out):
+    """strings at <map>.correlation.condition, anywhere"""
+    if t[0] == "l":
+        for x in t[1]: corr_conditions(x, out)
+    elif t[0] == "m":
+        for a, b in t[1]:
+            if a == ["s", "correlation"] and b[0] == "m":
+                for k, v in b[1]:
+                    if k == ["s", "condition"] and v[0] == "s": out.add(v[1])
+            corr_conditions(b, out)
+
+
+def library_coll(doc_t):
+    ss = set()
+    strings_of(doc_t, ss)
+    derived = set(ss)
+    for s in ss:
+        derived.add(s[:-1])
+        for a in ("", ".*"):
+            for b in ("", ".*"):
+                derived.add(a + s + b)
+    facts = [[s, b] for s, b in ((s, facts_of(s)) for s in sorted(derived)) if b]
+    ukeys = [[s, str(uuid.UUID(s).int)] for s, b in facts if b & 1]
+    cs = set()
+    corr_conditions(doc_t, cs)
+    exts = [[s, e] for s, e in ((s, ext_parse(s)) for s in sorted(cs)) if e is not None]
+    return facts, ukeys, exts
+
+
 def library(doc_t):
     ss = set()
     strings_of(doc_t, ss)
@@ -178,7 +207,9 @@ def run_load(case):
     if strict[0] == "sigma" and collect[0] == "ok" and co.errors:
         first_eq = bool(co.errors[0] == so)
     out = {"strict": strict, "collect": collect, "first_eq": first_eq}
-    if case.get("lib", True):
+    if case["kind"] in ("coll", "colldef"):
+        out["facts"], out["ukeys"], out["exts"] = library_coll(case["doc"])
+    elif case.get("lib", True):
         out["facts"], out["exts"] = library(case["doc"])
         if case["kind"] != "corr": out["exts"] = []
     return out
@@ -204,3 +235,53 @@ def run_yaml(case):
     if strict[0] == "sigma" and collect[0] == "ok" and co.errors:
         first_eq = bool(co.errors[0] == so)
     return {"strict": strict, "collect": collect, "first_eq": first_eq}
+
+
+# ---- collections through every public entry point ---------------------------------------------
+def _load_collection(docs, via, collect, cf, rr, split, workdir=None):
+    import os
+    if via == "dicts":
+        return SigmaCollection.from_dicts(copy.deepcopy(docs), collect, None, cf, rr)
+    if via == "yaml":
+        return SigmaCollection.from_yaml(yaml.safe_dump_all(docs, sort_keys=False, allow_unicode=True), collect, None, cf, rr)
+    parts = [docs[:split], docs[split:]]
+    if via == "merge":
+        cols = [SigmaCollection.from_dicts(copy.deepcopy(p), collect, None, True, False) for p in parts]
+        return SigmaCollection.merge(cols, resolve_references=rr)
+    if via == "ruleset":      # the same files for both modes: error locations take part in error equality
+        for i, p in enumerate(parts):
+            with open(os.path.join(workdir, f"{i}.yml"), "w", encoding="utf-8") as f:
+                f.write(yaml.safe_dump_all(p, sort_keys=False, allow_unicode=True))
+        return SigmaCollection.load_ruleset([workdir], collect_errors=collect, resolve_references=rr)
+    raise ValueError(via)
+
+
+def run_collx(case):
+    """collection = valid rules + one (possibly malformed) document, loaded through from_dicts / from_yaml /
+    merge / load_ruleset, filters applied or only collected, references resolved or not"""
+    docs = to_py(case["doc"])
+    via, cf, rr, split = case["via"], case["cf"], case["rr"], case.get("split", 1)
+
+    import tempfile
+    tmp = tempfile.TemporaryDirectory(prefix="c07_") if via == "ruleset" else None
+
+    def one(collect):
+        try:
+            r = _load_collection(docs, via, collect, cf, rr, split, tmp.name if tmp else None)
+        except SigmaError as e:
+            return ["sigma", type(e).__name__], e
+        except yaml.YAMLError as e:
+            return ["yaml", type(e).__name__], e
+        except Exception as e:  # noqa
+            return ["crash", type(e).__name__, str(e)[:160]], e
+        return ["ok", [type(e).__name__ for e in r.errors]], r
+    strict, so = one(False)
+    collect, co = one(True)
+    first_eq = None
+    if strict[0] == "sigma" and collect[0] == "ok" and co.errors:
+        first_eq = bool(co.errors[0] == so)
+    if tmp: tmp.cleanup()
+    out = {"strict": strict, "collect": collect, "first_eq": first_eq}
+    if via == "dicts":
+        out["facts"], out["ukeys"], out["exts"] = library_coll(case["doc"])
+    return out
